@@ -140,6 +140,32 @@ pub fn validate(doc: &Y, explicit_ids: &[String]) -> Vec<Problem> {
             };
             vars.sort();
             let item_params = path_params(item.get("parameters"));
+            // a parameter is identified by (in, name): one list must not hold it twice
+            {
+                let mut lists: Vec<(String, Option<&Y>)> = vec![(key.clone(), item.get("parameters"))];
+                for m in METHODS {
+                    if let Some(op) = item.get(m) {
+                        lists.push((format!("{m} {key}"), op.get("parameters")));
+                    }
+                }
+                for (at, l) in lists {
+                    let mut seen: Vec<(String, String)> = Vec::new();
+                    for p in l.and_then(|v| v.as_sequence()).into_iter().flatten() {
+                        let k = (
+                            p.get("in").and_then(|i| i.as_str()).unwrap_or("").to_owned(),
+                            p.get("name").and_then(|n| n.as_str()).unwrap_or("").to_owned(),
+                        );
+                        if seen.contains(&k) {
+                            probs.push(Problem {
+                                class: "parameter listed twice".into(),
+                                detail: format!("{at}: in {} name {}", k.0, k.1),
+                            });
+                        } else {
+                            seen.push(k);
+                        }
+                    }
+                }
+            }
             let mut ops: Vec<(&str, &Y)> = Vec::new();
             for m in METHODS {
                 if let Some(op) = item.get(m) {
